@@ -180,6 +180,45 @@ def sink_case(args):
         sc.close()
 
 
+def rerun_drain_case(args):
+    """a completed workflow with a producer of two streamed outputs and one consumer of both is run again: the consumer's task is
+    skipped and drains both FIFOs, each in a goroutine of its own, while the producer's command writes them"""
+    seed, i = args
+    rng = random.Random(seed * 373587943 + i)
+    n = rng.randint(1, 2)
+    sp = t3.Spec(maxtasks=2 * n + rng.randint(0, 2), bufsize=rng.choice([1, 128]))
+    paths = []
+    for j in range(n):
+        p = "rd%d.dat" % j
+        sp.files[p] = ("payload %d " % j) * rng.choice([1, 200, 9000])
+        paths.append(p)
+    s = sp.src("src", paths)
+    prod = sp.proc(t3.Proc("prod", kind="cat", ins=[("a", [(s, "out")])], outs=[("o", "{i:a}.s1"), ("o2", "{i:a}.s2")], stream_outs=["o", "o2"]))
+    sp.proc(t3.Proc("cons", kind="cat", ins=[("a", [(prod, "o")]), ("b", [(prod, "o2")])], outs=[("o", "{i:a|basename}.cons")]))
+    sc = t3.Scratch()
+    try:
+        sc.plant(sp.files)
+        quiet = rng.random() < 0.5
+        problems = []
+        impl = None
+        for k in range(2):
+            impl = t3.run_impl(sc, sp, binary="wfrun_race", timeout=60, env={"GORACE": "halt_on_error=0 exitcode=66"}, hooks_on=not quiet)
+            which = ["first run", "re-run of the completed workflow"][k]
+            if "DATA RACE" in impl["stderr"] or impl["rc"] == 66:
+                i0 = impl["stderr"].find("WARNING: DATA RACE")
+                problems.append(("data-race", "%s: the Go race detector reports a data race: %s" % (which, impl["stderr"][i0:i0 + 1500])))
+            elif impl["timed_out"]:
+                problems.append(("hang", "%s (race-built) did not terminate" % which))
+            elif impl["rc"] != 0:
+                problems.append(("unexpected-failure", "%s: rc=%s %s" % (which, impl["rc"], impl["stderr"][-300:])))
+            if problems:
+                break
+        return {"spec": sp.text(), "bufsize": sp.bufsize, "problems": problems, "ntasks": len(sp.nodes), "rc": impl["rc"], "stderr": impl["stderr"][-200:], "yield": None,
+                "wall": impl["wall"], "kind": "rerun-draining-two-streams" + ("/hooks-off" if quiet else "")}
+    finally:
+        sc.close()
+
+
 def run(rep, tier, seed):
     proved = vlib.prove(rep, MODULE, THEOREMS)
     out = vlib.build_go(race=True)
@@ -191,10 +230,11 @@ def run(rep, tier, seed):
     results += t3.run_many(ks.ks_case, [(seed, i, ("race",)) for i in range(n // 3)], workers=8)
     results += t3.run_many(feeder_case, [(seed, i) for i in range(n // 2)], workers=8)
     results += t3.run_many(sink_case, [(seed, i) for i in range(n // 4)], workers=8)
+    results += t3.run_many(rerun_drain_case, [(seed, i) for i in range(n // 6)], workers=8)
     t3.report_t3(rep, MODULE, proved, results, "lock discipline on the regenerated skeletons / race-detector runs")
     rep.cov["evaluations"] = len(results)
     rep.cov["distinct_nontrivial"] = len({r["spec"] for r in results})
-    rep.cov["rule"] = "workflows built with `go build -race -tags verif`: fan-out of one out-port to several consumers incl. a tagging component (MapToTags) and sibling outputs, tagging on a shared source plus group-by-tag concatenation, fan-in with multi-core tasks and parameter feeders, sub-streams + streaming + chains, sibling consumers whose output patterns use path modifiers / default names / parameter feeders, a tagging component beside a Concatenator on one out-port, one sub-stream carrier fanned out to several joining processes, one out-port fanned out to several Go-function consumers that read the shared IP with FileIP.Read, chains of processes with FromStr parameter feeders run with RunTo, several unconsumed streamed items and regular outputs arriving at the sink; in half of the runs the hooks are inactive (they take no lock then, so they cannot hide a race), in a quarter seeded delays at the hook points; a DATA RACE report (exit 66) is a failing input; the race detector is search, not proof; every case is distinct and non-trivial"
+    rep.cov["rule"] = "workflows built with `go build -race -tags verif`: fan-out of one out-port to several consumers incl. a tagging component (MapToTags) and sibling outputs, tagging on a shared source plus group-by-tag concatenation, fan-in with multi-core tasks and parameter feeders, sub-streams + streaming + chains, sibling consumers whose output patterns use path modifiers / default names / parameter feeders, a tagging component beside a Concatenator on one out-port, one sub-stream carrier fanned out to several joining processes, one out-port fanned out to several Go-function consumers that read the shared IP with FileIP.Read, chains of processes with FromStr parameter feeders run with RunTo, several unconsumed streamed items and regular outputs arriving at the sink, a completed two-streams workflow run again (the skipped consumer drains both FIFOs); in half of the runs the hooks are inactive (they take no lock then, so they cannot hide a race), in a quarter seeded delays at the hook points; a DATA RACE report (exit 66) is a failing input; the race detector is search, not proof; every case is distinct and non-trivial"
     rep.cov["rule"] += "; plus kitchen-sink workflows (tools/ks.py: random workflows decorated with tagging components, sub-streams, Concatenator / FileSplitter, streamed pairs, component parameter feeders, Go-function and multi-core processes, RunTo) judged by the model-free race-detector oracle"
     rep.cov["samples"] = [results[0]["spec"]]
     kinds = {}
